@@ -90,6 +90,9 @@ def handle(req: Dict[str, Any]) -> Any:
             for name, fn in (
                 ("dumps", lambda: fj.dumps(v)),
                 ("dumps_compact", lambda: fj.dumps(v, separators=(",", ":"))),
+                # encoding must be a function of the value alone: a pretty-printing call in between
+                # (server.py formats dict tool results with indent=2) must not change later compact output
+                ("dumps_after_pretty", lambda: (fj.dumps({"x": [v]}, indent=2), fj.dumps(v))[1]),
                 ("model_request", lambda: JSONRPCRequest(id=1, method="m", params={"v": v}).model_dump_json(exclude_none=True)),
                 ("model_response", lambda: JSONRPCResponse(id=1, result={"v": v}).model_dump_json(exclude_none=True)),
             ):
